@@ -20,8 +20,8 @@ for i in range(1, 21):
             r = {}
         title = m.get("title") or m["needs_to_manifest"]
         title = re.sub(r"\s+", " ", title)
-        if len(title) > 110:
-            title = title[:107] + "..."
+        if len(title) > 150:
+            title = title[:147] + "..."
         w = r.get("where", "")
         mm = re.match(r"(\S+) at ([^:]+):", w)
         by = "%s %s / %s" % (r.get("check", r.get("property", m["property"])), mm.group(1), mm.group(2)) if mm else ("MISSED" if not r.get("caught") else w[:60])
